@@ -70,6 +70,13 @@ theorem pieces_sound (env : TheEnv) (s : Store) (f : Nat)
       · have hm' : isMacroRef self n = false := by simpa using hm
         simp only [hm', Bool.false_eq_true, if_false] at hb
         exact Subst.counter hm' hb hrest
+    | call fm n =>
+      simp only [evalPiece] at hb
+      exact Subst.call hb hrest
+    | «macro» n =>
+      simp only [evalPiece] at hb
+      obtain ⟨d, parts, hl, hs, rfl⟩ := ih n b hb
+      exact Subst.macro hl hs hrest
 
 theorem evalThe_sound (env : TheEnv) (s : Store) : ∀ (f : Nat) (m : Name) (r : String),
     evalThe f env s m = .ok r → Denotes env s m r := by
@@ -122,6 +129,20 @@ theorem pieces_complete (env : TheEnv) (s : Store) (self : Name) (ps : List Piec
     obtain ⟨f', rfl⟩ : ∃ f', f = f' + 1 := ⟨f - 1, by omega⟩
     simp only [evalPiece, hm, if_true]
     exact evalThe_of_pieces env s f' n d parts hl (h1 f' (by omega))
+  | @call self n fm r ps rs hr _ ih =>
+    obtain ⟨f0, h0⟩ := ih
+    refine ⟨f0, fun f hf => ?_⟩
+    rw [mapM_cons_ok]
+    exact ⟨r, rs, by simp only [evalPiece, hr], h0 f hf, rfl⟩
+  | @«macro» self n d parts ps rs hl _ _ ih1 ih2 =>
+    obtain ⟨f1, h1⟩ := ih1
+    obtain ⟨f2, h2⟩ := ih2
+    refine ⟨max (f1 + 1) f2, fun f hf => ?_⟩
+    rw [mapM_cons_ok]
+    refine ⟨finish d parts, rs, ?_, h2 f (by omega), rfl⟩
+    obtain ⟨f', rfl⟩ : ∃ f', f = f' + 1 := ⟨f - 1, by omega⟩
+    simp only [evalPiece]
+    exact evalThe_of_pieces env s f' n d parts hl (h1 f' (by omega))
 
 theorem evalThe_complete (env : TheEnv) (s : Store) (m : Name) (r : String) (h : Denotes env s m r) :
     ∃ f0, ∀ f, f0 ≤ f → evalThe f env s m = .ok r := by
@@ -150,6 +171,25 @@ theorem mapM_congr_mem {α β} (g g' : α → Except Err β) : ∀ (l : List α)
   | cons a l ih =>
     intro h
     rw [List.mapM_cons, List.mapM_cons, h a List.mem_cons_self, ih (fun b hb => h b (List.mem_cons_of_mem _ hb))]
+
+theorem lookup_mem_env (env : TheEnv) (m : Name) (d : TheDef) (hl : env.lookup m = some d) : (m, d) ∈ env := by
+  induction env with
+  | nil => simp at hl
+  | cons e env ih =>
+    obtain ⟨a, b⟩ := e
+    rw [List.lookup_cons] at hl
+    by_cases hab : (m == a) = true
+    · simp only [hab, Option.some.injEq] at hl
+      have : m = a := by simpa using hab
+      subst this; subst hl; exact List.mem_cons_self
+    · simp only [hab] at hl
+      exact List.mem_cons_of_mem _ (ih hl)
+
+theorem ranked_macro (env : TheEnv) (rank : Name → Nat) (h : macroRankedB env rank = true) (m : Name) (d : TheDef)
+    (hl : env.lookup m = some d) (n : Name) (hp : Piece.macro n ∈ d.pieces) : rank n < rank m := by
+  simp only [macroRankedB, List.all_eq_true] at h
+  have := h (m, d) (lookup_mem_env env m d hl) (.macro n) hp
+  simpa using this
 
 theorem ranked_ref (env : TheEnv) (rank : Name → Nat) (h : macroRankedB env rank = true) (m : Name) (d : TheDef)
     (hl : env.lookup m = some d) (n : Name) (fm : Option String) (hp : Piece.ref n fm ∈ d.pieces)
@@ -198,6 +238,11 @@ theorem fuel_irrelevant (env : TheEnv) (s : Store) (rank : Name → Nat) (h : ma
             have := ranked_ref env rank h m d hl n fm hp hm
             exact ih f2' n (by omega) (by omega)
           · simp [hm]
+        | call fm n => rfl
+        | «macro» n =>
+          simp only [evalPiece]
+          have := ranked_macro env rank h m d hl n hp
+          exact ih f2' n (by omega) (by omega)
       rw [this]
 
 end PlasVerif.Proofs.Format
